@@ -55,10 +55,7 @@ def analyse(model):
 
 def check_source(src, run_patterns=(), globals0=None):
     d = {'kind': 'source', 'source': src, 'patterns': list(run_patterns), 'globals': enc(globals0 or {})}
-    try:
-        model = impl.bs.parse_script(src)
-    except impl.bs.ParserError as e:
-        raise Violation('generated program does not parse: %s' % e, d, 'parse') from e
+    model = impl.parse_valid(src, d)
     try:
         impl.bs.validate_script(model)
     except Exception as e:  # pylint: disable=broad-except
